@@ -415,6 +415,18 @@ func checkXzWriter(prop string) func(a *checkArgs, r *Result) error {
 			c := xzCfg{LC: 3, PB: 2, DictCap: []int{1 << 20, 8 << 20, 65536}[i%3], BufSize: 4096, Matcher: 0}
 			cases = append(cases, xzCase{Op: "xzwrite", Name: fmt.Sprintf("barely/%d", len(d)), Cfg: c, Data: hxe(d), Parts: []int{len(d)}})
 		}
+		// alignment sweep: k literals, then maximal matches (273 bytes) until the dictionary buffers of writer and
+		// reader wrap: every residue of the fill level modulo the maximal match length is met
+		for k := 0; k < 2*273; k++ {
+			m := k / 273
+			k := k % 273
+			d := make([]byte, k, k+13000)
+			for j := range d {
+				d[j] = byte(1 + j%251)
+			}
+			d = append(d, make([]byte, 3*4096+k%7)...)
+			cases = append(cases, xzCase{Op: "xzwrite", Name: fmt.Sprintf("align/%d/m%d", k, m), Cfg: xzCfg{LC: 3, PB: 2, DictCap: 4096, BufSize: []int{4096, 273, 1000}[k%3], Matcher: m}, Data: hxe(d), Parts: []int{len(d)}})
+		}
 		for i := 0; i < big*2; i++ { // regime switches: several raw chunks, then compressible data, and back
 			var d []byte
 			for k := 0; k < 2+rng.Intn(3); k++ {
